@@ -270,7 +270,8 @@ fn check_case(run: &Run, case: &Case, origin: &'static str, case_seed: Option<u6
                 let d_dist = rep_after.distance - rep_before.as_ref().map(|r| r.distance).unwrap_or(0.);
                 let d_dur = rep_after.duration - rep_before.as_ref().map(|r| r.duration).unwrap_or(0.);
                 let expect = |layer: &Layer| match layer {
-                    Layer::Unassigned | Layer::Unassigned2 => -1.,
+                    Layer::Unassigned => -1.,
+                    Layer::Unassigned2 => -vverif::micro::unassigned_weight(cand),
                     Layer::Tours | Layer::Tours2 => is_new as i32 as f64,
                     Layer::MaxTours => -(is_new as i32 as f64),
                     Layer::Distance => d_dist,
